@@ -25,7 +25,10 @@ RULE = (
     "Oracle: multiset of appended rows == rows of the final consolidated file (all six fields) == disjoint union of "
     "all process_results() return values; whenever the consolidated file's lock is free the file parses and every "
     "row has six well-typed fields; no process raises. non-trivial = a collection happened strictly between two "
-    "appends to the same node file (header re-creation path) with >= 2 actors; distinct by hash of the case"
+    "appends to the same node file (header re-creation path) with >= 2 actors; distinct by hash of the case. One case in "
+    "five is a whole generated submission instead (real run-jobs and try-submit-jobs processes, operator rounds near the "
+    "end of batches): at completion every job that ran has exactly one consolidated row, no row is left in a node file, "
+    "and every consolidated row's job is recorded as done (it was reported to a round)"
 )
 ASSUMPTIONS = C.WORLD_ASSUMPTIONS + [
     "file_yields on; a row / file content reaches the disk atomically at close (rows are < 1 page, one buffered write)",
@@ -42,12 +45,61 @@ ROW = st.fixed_dictionaries({
 
 
 def strategy(tier):
-    return st.fixed_dictionaries({
+    direct = st.fixed_dictionaries({
         "runners": st.lists(st.lists(ROW, min_size=1, max_size=5), min_size=1, max_size=4),
         "collectors": st.lists(st.integers(1, 3), min_size=1, max_size=3),
         "submitter_rows": st.lists(ROW, max_size=2),
         "schedule": gen.schedules(240),
     })
+    # whole submissions: real runners (run-jobs) and real submitter rounds (try-submit-jobs), interleaved at lock- and
+    # file-operation granularity, with operator rounds near the end of batches
+    flow = st.fixed_dictionaries({
+        "kind": st.just("flow"),
+        "scn": gen.scenarios(min_jobs=2, max_jobs=8, max_groups=2),
+        "schedule": gen.schedules(200),
+        "late": C.late_ops(),
+        "file_yields": st.booleans(),
+    })
+    return st.integers(0, 9).flatmap(lambda k: flow if k == 0 else direct)
+
+
+def run_flow(case, res):
+    """Every row a runner wrote is in the consolidated file exactly once when the fault-free submission is complete, no
+    row is left in a node file, and every consolidated row was reported to a round: its job is recorded as done."""
+    v = res["violations"]
+    scn = case["scn"]
+    with H.Sim(scn, schedule=case["schedule"], file_yields=case.get("file_yields", False),
+               max_steps=30000 if case.get("file_yields") else 8000) as sim:
+        C.install_late_ops(sim, case.get("late"))
+        sim.submit()
+        outcome = sim.drive()
+        res["classes"].append("kind:flow")
+        if outcome != "complete":
+            res["inconclusive"] = "flow-" + outcome.split(":")[0]
+            return
+        rows = list(W.read_result_rows(sim.out))
+        consolidated = [parts[0] for f, parts in rows if f == "processed_results.csv" and parts]
+        stranded = sorted({(f, parts[0]) for f, parts in rows if f != "processed_results.csv" and parts})
+        dup = sorted({n for n in consolidated if consolidated.count(n) > 1})
+        if dup:
+            v.append(C.viol("C08:flow-row-consolidated-twice", f"jobs {dup} have more than one row in processed_results.csv"))
+        if stranded:
+            v.append(C.viol("C08:flow-row-never-collected", f"the submission is complete but rows are still in node files: {stranded}"))
+        js = sim.job_status() or {}
+        not_done = sorted(j["name"] for j in js.get("jobs", []) if j["name"] in set(consolidated) and j.get("state") != "done")
+        if not_done:
+            v.append(C.viol("C08:flow-row-reported-to-no-round", f"jobs {not_done} have a row in processed_results.csv but were never "
+                            f"reported as completed to a submitter round (recorded state: "
+                            f"{[(j['name'], j.get('state')) for j in js.get('jobs', []) if j['name'] in not_done]})"))
+        launched = set(C.launches(sim))
+        lost = sorted(launched - set(consolidated))
+        if lost:
+            v.append(C.viol("C08:flow-row-lost", f"jobs {lost} ran but have no row in processed_results.csv"))
+        res["nontrivial"] = len(sim.w.events("sbatch")) >= 2 and len(consolidated) >= 2
+        if res["nontrivial"] or v:
+            res["sample"] = C.sample_of(case, sim, {"kind": "flow", "consolidated": len(consolidated)})
+        if v:
+            res["replay_log"] = sim.w.abridged_log(150)
 
 
 def enumerate_cases(tier):
@@ -82,6 +134,9 @@ def run_case(case):
 
     res = {"violations": [], "classes": [], "nontrivial": False, "sample": None, "inconclusive": None, "counters": {}}
     v = res["violations"]
+    if case.get("kind") == "flow":
+        run_flow(case, res)
+        return res
     pseudo = {"jobs": [], "groups": [{"cpus": 1}], "mode": "hpc"}
     with H.Sim(pseudo, schedule=case["schedule"], file_yields=True, max_steps=20000) as sim:
         w = sim.w
